@@ -8,7 +8,7 @@
     on a count that was checked against its limit).  The limits are the constants
     translated from the Go source (Gen/Codec.v). *)
 From Coq Require Import ZArith List.
-From Geo Require Import Base.GoPrim Base.Bytes Gen.Codec Model.Codec Proofs.C15_Total.
+From Geo Require Import Base.GoPrim Base.Bytes Gen.CellID Gen.Codec Model.Codec Proofs.C15_Total.
 Import ListNotations.
 Local Open Scope Z_scope.
 
@@ -30,7 +30,7 @@ Proof. exact (run_total _ decode_cellid_good). Qed.
 Print Assumptions decode_total_cellid.
 
 Theorem decode_total_cell : forall bs, bytes_ok bs -> decode_cell bs <> Panic.
-Proof. exact (run_total _ decode_cellid_good). Qed.
+Proof. exact (run_total _ decode_cell_good). Qed.
 Print Assumptions decode_total_cell.
 
 Theorem decode_total_cellunion : forall bs, bytes_ok bs -> decode_cellunion bs <> Panic.
@@ -110,25 +110,44 @@ Theorem reads_never_panic : forall n d,
 Proof. intros n d. split; [exact (read_le_st n d) | exact (read_uvarint_st d)]. Qed.
 Print Assumptions reads_never_panic.
 
-(** FINDING (unchanged tree): Cell.Decode returns a value for ids without a face; querying
-    its bound panics.  The full-strength statement "every decoded Cell can be queried" is false: *)
-Theorem decode_usable_cell_refuted :
-  exists bs id, bytes_ok bs /\ decode_cell bs = Ok id /\ cell_rect_bound_axes id = Panic.
-Proof. exact C15_Total.decode_usable_cell_refuted. Qed.
-Print Assumptions decode_usable_cell_refuted.
+(** a decoded Cell has a valid id (8beed88), hence a face, hence its row of the axis table *)
+Theorem decode_usable_cell : forall bs id, bytes_ok bs -> decode_cell bs = Ok id -> cell_rect_bound_axes id <> Panic.
+Proof. exact C15_Total.decode_usable_cell. Qed.
+Print Assumptions decode_usable_cell.
 
-(** what does hold: ids below 6*2^61 (every valid id) have their axis row *)
+(** before 8beed88: any 8 bytes decoded, and the bound of an id with face bits 6 or 7 panicked *)
+Theorem decode_usable_cell_old_refuted :
+  exists bs id, bytes_ok bs /\ run decode_cellid_body bs = Ok id /\ cell_rect_bound_axes id = Panic
+                /\ decode_cell bs = Err.
+Proof. exact C15_Total.decode_usable_cell_old_refuted. Qed.
+Print Assumptions decode_usable_cell_old_refuted.
+
 Theorem decode_usable_cell_valid_ids : forall id, 0 <= id < 6 * 2 ^ 61 -> cell_rect_bound_axes id <> Panic.
 Proof. exact cell_rect_bound_axes_valid. Qed.
 Print Assumptions decode_usable_cell_valid_ids.
 
-(** FINDING (unchanged tree): the full polygon (also the golden encoding 040001010B000100 of
-    encode_test.go) has no ShapeIndex; ContainsPoint, ContainsCell and IntersectsCell dereference it *)
-Theorem decode_usable_full_polygon_refuted :
-  exists bs ls, bytes_ok bs /\ decode_polygon bs = Ok (DCompressed ls) /\ polygon_query_entry ls = Panic.
-Proof. exact C15_Total.decode_usable_full_polygon_refuted. Qed.
-Print Assumptions decode_usable_full_polygon_refuted.
+(** every id of a decoded CellUnion is valid (847439f) *)
+Theorem decode_usable_cellunion : forall bs ids, decode_cellunion bs = Ok ids ->
+  Forall (fun id => s2_CellID_IsValid id = true) ids.
+Proof. exact decode_cellunion_valid. Qed.
+Print Assumptions decode_usable_cellunion.
 
-Theorem decode_usable_polygon_not_full : forall ls, cloops_full ls = false -> polygon_query_entry ls = Ok tt.
-Proof. exact polygon_query_entry_not_full. Qed.
-Print Assumptions decode_usable_polygon_not_full.
+(** a decoded polygon, the full one included (54a5f02), has the index its point and cell queries start from *)
+Theorem decode_usable_polygon : forall ls, polygon_query_entry ls = Ok tt.
+Proof. exact polygon_query_entry_total. Qed.
+Print Assumptions decode_usable_polygon.
+
+(** before 54a5f02 the full polygon (golden encoding 040001010B000100) had no index *)
+Theorem decode_usable_full_polygon_old_refuted :
+  exists bs ls, bytes_ok bs /\ decode_polygon bs = Ok (DCompressed ls) /\ polygon_query_entry_54a5f02_old ls = Panic
+                /\ polygon_query_entry ls = Ok tt.
+Proof. exact C15_Total.decode_usable_full_polygon_old_refuted. Qed.
+Print Assumptions decode_usable_full_polygon_old_refuted.
+
+(** vertices of a decoded polyline or loop are finite (4fc5f5f): no NaN reaches the exact predicates *)
+Theorem decode_usable_polyline_finite : forall bs ps, decode_polyline bs = Ok ps -> Forall finite_point ps.
+Proof. exact decode_polyline_finite. Qed.
+Print Assumptions decode_usable_polyline_finite.
+Theorem decode_usable_loop_finite : forall bs l, decode_loop bs = Ok l -> Forall finite_point (l_vertices l).
+Proof. exact decode_loop_finite. Qed.
+Print Assumptions decode_usable_loop_finite.
